@@ -12,6 +12,7 @@ pub mod c23;
 pub mod c25;
 pub mod c26;
 pub mod c27;
+pub mod c30;
 pub mod c35;
 pub mod c37;
 pub mod c40;
@@ -32,6 +33,7 @@ pub fn run(id: &str, run: &mut Run) {
         "C40" => c40::run(run),
         "C35" => c35::run(run),
         "C37" => c37::run(run),
+        "C30" => c30::run(run),
         _ => machinery_failure(&format!("no check for property {}", id)),
     }
 }
@@ -52,6 +54,7 @@ pub fn replay(id: &str, case: &Value, run: &mut Run) {
         "C40" => c40::replay(case, run),
         "C35" => c35::replay(case, run),
         "C37" => c37::replay(case, run),
+        "C30" => c30::replay(case, run),
         _ => machinery_failure(&format!("no replay for property {}", id)),
     }
 }
@@ -62,6 +65,7 @@ pub fn child(id: &str, args: &[String]) {
         "C11" => c11::child(args),
         "C04" => c04::child(args),
         "C02" => c02::child(args),
+        "C30" => c30::child(args),
         _ => machinery_failure(&format!("no child mode for property {}", id)),
     }
 }
